@@ -686,9 +686,25 @@ func compileStmt(context *funcContext, stmt ast.Stmt, isLastStmt bool) { // {{{
 	}
 } // }}}
 
+// assignsLocal reports whether a multiple assignment stores into a local variable. The object
+// and value operands of its table targets may then not stay in a local's own register: the
+// stores run last target first, so that register could already hold its new value.
+func assignsLocal(context *funcContext, stmt *ast.AssignStmt) bool { // {{{
+	if len(stmt.Lhs) < 2 {
+		return false
+	}
+	for _, lhs := range stmt.Lhs {
+		if id, ok := lhs.(*ast.IdentExpr); ok && getIdentRefType(context, context, id) == ecLocal {
+			return true
+		}
+	}
+	return false
+} // }}}
+
 func compileAssignStmtLeft(context *funcContext, stmt *ast.AssignStmt) (int, []*assigncontext) { // {{{
 	reg := context.RegTop()
 	acs := make([]*assigncontext, 0, len(stmt.Lhs))
+	copyoperands := assignsLocal(context, stmt)
 	for i, lhs := range stmt.Lhs {
 		islast := i == len(stmt.Lhs)-1
 		switch st := lhs.(type) {
@@ -708,7 +724,12 @@ func compileAssignStmtLeft(context *funcContext, stmt *ast.AssignStmt) (int, []*
 			acs = append(acs, &assigncontext{ec, 0, 0, false, false})
 		case *ast.AttrGetExpr:
 			ac := &assigncontext{&expcontext{ecTable, regNotDefined, 0}, 0, 0, false, false}
-			compileExprWithKMVPropagation(context, st.Object, &reg, &ac.ec.reg)
+			if copyoperands {
+				ac.ec.reg = reg
+				reg += compileExpr(context, reg, st.Object, ecnone(0))
+			} else {
+				compileExprWithKMVPropagation(context, st.Object, &reg, &ac.ec.reg)
+			}
 			ac.keyrk = reg
 			reg += compileExpr(context, reg, st.Key, ecnone(0))
 			if _, ok := st.Key.(*ast.StringExpr); ok {
@@ -727,6 +748,7 @@ func compileAssignStmtRight(context *funcContext, stmt *ast.AssignStmt, reg int,
 	lennames := len(stmt.Lhs)
 	lenexprs := len(stmt.Rhs)
 	namesassigned := 0
+	copyoperands := assignsLocal(context, stmt)
 
 	for namesassigned < lennames {
 		ac := acs[namesassigned]
@@ -757,7 +779,7 @@ func compileAssignStmtRight(context *funcContext, stmt *ast.AssignStmt, reg int,
 		idx := reg
 		reginc := compileExpr(context, reg, expr, ec)
 		if ec.ctype == ecTable {
-			if _, ok := expr.(*ast.LogicalOpExpr); !ok {
+			if _, ok := expr.(*ast.LogicalOpExpr); !ok && !copyoperands {
 				context.Code.PropagateKMV(context.RegTop(), &ac.valuerk, &reg, reginc)
 			} else {
 				ac.valuerk = idx
